@@ -1015,9 +1015,6 @@ func (e *Env) callGo(fn *ssa.Function, recv *V, args []CExpr) V {
 	if fn == nil {
 		e.fail("function has no SSA body")
 	}
-	if x.noDefine > 0 {
-		e.fail("Go function %s cannot be called under a quantifier in a contract", fn.Name())
-	}
 	x.prog.ensureBuilt(fn)
 	var vs []V
 	if recv != nil {
@@ -1035,8 +1032,36 @@ func (e *Env) callGo(fn *ssa.Function, recv *V, args []CExpr) V {
 		}
 		vs = append(vs, v)
 	}
+	// library functions: the same models the code's own calls use
+	{
+		key := fullFuncKey(fn)
+		if fn.Origin() != nil {
+			key = fullFuncKey(fn.Origin())
+		}
+		stl := e.cur.clone()
+		stl.guard = "true"
+		x.curCall = nil
+		var rt types.Type = types.NewTuple()
+		if sig.Results().Len() == 1 {
+			rt = sig.Results().At(0).Type()
+		} else if sig.Results().Len() > 1 {
+			rt = sig.Results()
+		}
+		x.specMode++
+		v, ok := x.libCall(nil2frame(), stl, key, fn, vs, rt, 0)
+		x.specMode--
+		if ok {
+			return v
+		}
+		if !x.prog.inRepo(pkgPathOfKey(fn, x.prog)) {
+			e.fail("library function %s has no model and cannot be used in a contract", key)
+		}
+	}
 	if fn.Blocks == nil {
 		e.fail("function %s has no body", fn.Name())
+	}
+	if x.noDefine > 0 {
+		e.fail("Go function %s cannot be called under a quantifier in a contract", fn.Name())
 	}
 	st := e.cur.clone()
 	st.guard = "true"
